@@ -77,7 +77,7 @@ def replayOrder (cells : List CellId) : Bool :=
     && (run p st1).2 == p.pureRun && (run p (allUninit toy)).2 == p.pureRun
 
 def threadsOfMode (mode : String) : Option Nat :=
-  if mode == "seq" || mode == "clones" || mode == "interleaved" then some 1
+  if mode == "seq" || mode == "clones" || mode == "interleaved" || mode == "recontext" then some 1
   else if mode.startsWith "threads" then (mode.drop 7).toString.toNat? else none
 
 def tagOfMode (mode : String) : String := if mode.startsWith "threads" then "threads" else mode
